@@ -167,10 +167,12 @@ func runC07(c *Ctx) {
 	checkClassifierAgreement(c)
 	checkFeePlumbing(c)
 	checkInputSourceLifetime(c, "C07-R4")
+	checkInputSourceConsumes(c, "C07-R4") // a coin handed out twice is counted twice: inputs no longer total outputs plus fee
 	checkFixedSelectionSourceIsStateless(c, "C07-R4")
 	checkOutputSizesFromSerializer(c, "C07-R2")
 	checkP2PKHSigScriptCoversHeldKeys(c, "C07-R2")
 	checkDustTestCoversSerializedOutput(c, "C07-R3")
+	checkWitnessSignaturesUseCompressedKeys(c, "C07-R2")
 }
 
 // countsChange: v is (a conversion of) a phi merging len(txOuts) and len(txOuts)+1.
@@ -1458,4 +1460,28 @@ func checkDustTestCoversSerializedOutput(c *Ctx, rule string) {
 	walk(fn, 0)
 	c.Check(rule, "dust-test-covers-serialized-output", fn.Pos(), ok,
 		"IsDustOutput neither asks the node policy's dust test nor sizes the output through its serializer: a threshold computed from the script length alone forgets the 9 bytes of value and script-length prefix, so change outputs up to 27 sat below the real dust limit are added to authored transactions")
+}
+
+// checkWitnessSignaturesUseCompressedKeys: the witness of a (nested) P2WPKH input is a signature and a public key; the
+// estimator budgets RedeemP2WPKHInputWitnessWeight for it, which assumes the 33-byte compressed key. The signer therefore
+// asks for the compressed serialisation at every witness signature it makes (constant true), whatever the secrets source
+// says about the key: with the source's flag handed through, an uncompressed key adds 32 weight-discounted bytes (8 vB)
+// per input that no estimate accounts for, and the fee falls below the requested rate.
+func checkWitnessSignaturesUseCompressedKeys(c *Ctx, rule string) {
+	p := c.P
+	n := 0
+	for _, fn := range p.FuncsIn("wallet/txauthor") {
+		for _, call := range callsNamed(fn, "WitnessSignature") {
+			if len(call.Call.Args) == 0 {
+				continue
+			}
+			n++
+			last := stripConv(call.Call.Args[len(call.Call.Args)-1])
+			k, isK := last.(*ssa.Const)
+			ok := isK && k.Value != nil && k.Value.String() == "true"
+			c.Check(rule, "witness-signature-uses-compressed-key:"+fn.Name(), call.Pos(), ok,
+				fnName(fn)+" lets the secrets source decide whether the public key in the witness is compressed: for an uncompressed key the witness carries a 65-byte key, 8 vB per input more than RedeemP2WPKHInputWitnessWeight budgets, so the fee is below the requested rate on the signed size")
+		}
+	}
+	c.Floor(rule, "witness signatures made by the signer", n, 2)
 }
